@@ -671,6 +671,9 @@ func restoreAttributeValue(attr string, stored []byte) (string, error) {
 	case object.FilterPayloadChecksum:
 		return hex.EncodeToString(stored), nil
 	case object.FilterSplitID:
+		if len(stored) == 0 { // the object has no split ID
+			return "", nil
+		}
 		uid, err := uuid.FromBytes(stored)
 		if err != nil {
 			return "", invalidMetaBucketKeyErr([]byte{metaPrefixAttrIDPlain}, fmt.Errorf("decode split ID: decode UUID: %w", err))
